@@ -16,10 +16,9 @@ abbrev trC (dx dy : Int) (cs : List Col) : List Col := cs.map (Col.tr dx dy)
 /-! ### shifting the arguments of the overlap computations -/
 
 theorem half_shift (l r s e dx : Int) :
-    ((if min (r + dx) (e + dx) > max (l + dx) (s + dx) then min (r + dx) (e + dx) - max (l + dx) (s + dx) else 0) * 2
-        > (r + dx) - (l + dx)) ↔
-    ((if min r e > max l s then min r e - max l s else 0) * 2 > r - l) := by
-  constructor <;> intro h <;> split at h <;> split <;> omega
+    (if min (r + dx) (e + dx) > max (l + dx) (s + dx) then min (r + dx) (e + dx) - max (l + dx) (s + dx) else 0) =
+    (if min r e > max l s then min r e - max l s else 0) := by
+  split <;> split <;> omega
 
 theorem overlap_shift (al ar bl br dx : Int) :
     (if min (ar + dx) (br + dx) ≥ max (al + dx) (bl + dx) then min (ar + dx) (br + dx) - max (al + dx) (bl + dx) + 1 else 0) =
@@ -91,8 +90,8 @@ theorem gapGo_tr (thr s e : Int) (xs : List Int) :
   | nil => rfl
   | cons p ps ih =>
     simp only [List.map_cons, gapGo]
-    have : (p + dx - (e + dx) < max thr 2) ↔ (p - e < max thr 2) := by omega
-    by_cases h : p - e < max thr 2
+    have : (p + dx - (e + dx) < max thr gapMin) ↔ (p - e < max thr gapMin) := by omega
+    by_cases h : p - e < max thr gapMin
     · rw [if_pos h, if_pos (this.mpr h)]; exact ih s p
     · rw [if_neg h, if_neg (fun h' => h (this.mp h'))]
       simp only [List.map_cons]
@@ -118,9 +117,10 @@ theorem columnRanges_tr (thr mcw : Int) (ls : List Line) :
 
 theorem hit_tr (l : Line) (ρ : Int × Int) : hit (l.tr dx dy) (trR dx ρ) = hit l ρ := by
   rw [Bool.eq_iff_iff, hit_iff, hit_iff]
-  have h := half_shift l.box.l l.box.r ρ.1 ρ.2 dx
-  have h0 : (l.box.r + dx - (l.box.l + dx) ≠ 0) ↔ (l.box.r - l.box.l ≠ 0) := by omega
-  exact and_congr h0 h
+  have h : ovl (l.tr dx dy) (trR dx ρ) = ovl l ρ := half_shift l.box.l l.box.r ρ.1 ρ.2 dx
+  have hw : (l.tr dx dy).box.r - (l.tr dx dy).box.l = l.box.r - l.box.l := by
+    simp only [Line.tr, Box.tr]; omega
+  rw [h, hw]
 
 theorem colLines_tr (ls : List Line) (rs : List (Int × Int)) :
     colLines (trL dx dy ls) (rs.map (trR dx)) = (colLines ls rs).map (trL dx dy) := by
